@@ -46,6 +46,15 @@ func c02Gen(r *rand.Rand, i int) *genReq {
 			}
 		}
 	}
+	if method == "choquetIntegral" && len(g.crits) >= 3 && r.Intn(8) == 0 {
+		// the capacity of one union of three criteria is given twice, under two unsorted spellings, with different values
+		w := g.M["methodParameters"].(M)["weights"].(M)
+		a, b, c3 := g.crits[0].id, g.crits[1].id, g.crits[2].id
+		delete(w, a+","+b+","+c3)
+		w[c3+","+a+","+b] = 1.0
+		w[b+","+c3+","+a] = 0.25
+		g.invalid = true
+	}
 	if method != "owa" && method != "choquetIntegral" && r.Intn(6) == 0 {
 		// alternatives may carry values for criteria that are not declared (only the declared ones are required)
 		for _, a := range g.M["knownAlternatives"].([]interface{}) {
